@@ -898,7 +898,32 @@ static void runDac(const Case &c) {
 static void runRePair(const Case &c) {
   for (auto &op : c.ops) {
     g_op++;
-    if (op[0] == "rp") { // rp <maxchar> <comma separated ints, 0 = terminator> [reload]
+    if (op[0] == "rpbig") { // rpbig <seed> <strings> <alphabet>: a pair table that grows (> 98 304 live pairs); checked here
+      uint64_t x = strtoull(op[1].c_str(), nullptr, 10) * 2862933555777941757ULL + 3037000493ULL;
+      size_t ns = strtoull(op[2].c_str(), nullptr, 10); uint alpha = (uint)atoi(op[3].c_str());
+      auto nxt = [&]() { x = x * 6364136223846793005ULL + 1442695040888963407ULL; return (uint)(x >> 33); };
+      vector<int> in;
+      for (size_t i = 0; i < ns; i++) { uint l = 6 + nxt() % 7; for (uint t = 0; t < l; t++) in.push_back(1 + (int)(nxt() % alpha)); in.push_back(0); }
+      size_t n = in.size();
+      int *seq = new int[n];
+      for (size_t i = 0; i < n; i++) seq[i] = in[i];
+      RePair *rp = new RePair(seq, (uint)n, (uchar)alpha);
+      // expansion of the compacted sequence, symbol by symbol, against the input
+      size_t io = 0, pos = 0; bool ok = true; uchar *buf = new uchar[n + 16];
+      while (io < n && ok) {
+        if (seq[io] >= 0) {
+          uint sym = (uint)seq[io];
+          if (sym >= rp->terminals) {
+            uint l = rp->expandRule(sym - (uint)rp->terminals, buf);
+            for (uint t = 0; t < l && ok; t++, pos++) ok = pos < n && in[pos] == (int)buf[t] && buf[t] != 0;
+          } else { ok = pos < n && in[pos] == (int)sym; pos++; }
+          io++;
+        } else io = (size_t)(-(seq[io] + 1));
+      }
+      ok = ok && pos == n;
+      emit("RPBIG ok=%d", ok ? 1 : 0);
+      delete[] buf; delete rp; delete[] seq;
+    } else if (op[0] == "rp") { // rp <maxchar> <comma separated ints, 0 = terminator> [reload]
       uchar maxchar = (uchar)atoi(op[1].c_str());
       auto f = splitc(op[2]);
       size_t n = f.size();
